@@ -24,11 +24,15 @@ CONSTANTS
   ClosedOrdered = TRUE
   DupClears = TRUE
   MaxDup = 1
+  AllowRepeat = TRUE
+  CancelIdempotent = TRUE
+  RelayCancelIdempotent = TRUE
 INVARIANT TypeOK
 INVARIANT P_C05_WireTruth
 INVARIANT P_C05_ListPeers
 INVARIANT P_C05_NoSpuriousAnnounce
 INVARIANT P_C05_Settles
+INVARIANT HandlesMatch
 CONSTRAINT Bound
 SYMMETRY Sym
 CHECK_DEADLOCK FALSE
